@@ -111,7 +111,7 @@ def run_shard(ctx):
         except Violation as v:
             ctx.violation(case, str(v))
             return
-    # exhaustive loop/break family (832 definitions, complete sets, k=2)
+    # exhaustive loop/break family (1000 definitions, complete sets, k=2)
     for tag, case in pvcase.loop_shape_cases(ctx.seed, ctx.shard,
                                              ctx.nshards):
         ctx.count("loop_shapes_enumerated")
